@@ -68,3 +68,173 @@ def c08_random(n, maxlen, rng, start_id=1000000):
                                 rng.choice([0, 1, 4, 0x14, 0x1F]), rng.choice([0, 1, 4, 5, 0x1F]),
                                 rng.choice(list(HANDLERS)), extra_steps=rng.randint(4, 30)))
     return out
+
+
+# ------------------------------------------------------- structured programs
+class Asm:
+    """Tiny assembler: byte emission at an origin with labels and fix-ups."""
+    def __init__(self, org):
+        self.org = org; self.b = []; self.labels = {}; self.fix = []
+    def here(self): return self.org + len(self.b)
+    def label(self, name): self.labels[name] = self.here()
+    def emit(self, *bs):
+        for x in bs: self.b.append(x & 0xFF)
+    def word(self, w): self.emit(w & 0xFF, w >> 8)
+    def jp(self, op, target):          # 3-byte absolute (JP/CALL)
+        self.emit(op); self.fix.append((len(self.b), target, "abs")); self.emit(0, 0)
+    def jr(self, op, target):
+        self.emit(op); self.fix.append((len(self.b), target, "rel")); self.emit(0)
+    def resolve(self, extra=None):
+        lab = dict(self.labels); lab.update(extra or {})
+        for pos, t, kind in self.fix:
+            addr = lab[t] if isinstance(t, str) else t
+            if kind == "abs":
+                self.b[pos] = addr & 0xFF; self.b[pos + 1] = addr >> 8
+            else:
+                d = addr - (self.org + pos + 1)
+                assert -128 <= d <= 127, "jr out of range"
+                self.b[pos] = d & 0xFF
+        return self.b
+
+R8 = [0, 1, 2, 3, 4, 5, 7]          # B C D E H L A (6 = (HL) excluded)
+
+def alu_op(rng, keep_hl=False):
+    k = rng.randrange(12)
+    dst = [r for r in R8 if not (keep_hl and r in (4, 5))]
+    if k == 0:  return [0x40 + 8 * rng.choice(dst) + rng.choice(R8)]
+    if k == 1:  return [0x06 + 8 * rng.choice(dst), rng.randrange(256)]
+    if k in (2, 3):  return [0x80 + 8 * rng.randrange(8) + rng.choice(R8)]
+    if k == 4:  return [0xC6 + 8 * rng.randrange(8), rng.randrange(256)]
+    if k == 5:  return [0x04 + 8 * rng.choice(dst) + rng.randrange(2)]
+    if k == 6:  return [rng.choice([0x03, 0x0B, 0x13, 0x1B] + ([] if keep_hl else [0x23, 0x2B]))]
+    if k == 7:  return [rng.choice([0x07, 0x0F, 0x17, 0x1F, 0x27, 0x2F, 0x37, 0x3F])]
+    if k == 8:
+        r = rng.choice(dst if rng.randrange(4) else R8)
+        grp = rng.randrange(4)
+        if grp == 1: r = rng.choice(R8)            # BIT does not write
+        return [0xCB, 64 * grp + 8 * rng.randrange(8) + r]
+    if k == 9 and not keep_hl:  return [rng.choice([0x09, 0x19, 0x29])]
+    if k == 10: return [0x00]
+    return [0x3E, rng.randrange(256)]
+
+def structured_program(sid, rng, mbc=None, steps=None):
+    """One multi-block program exercising loops, calls, interrupts, HALT, DMA, RAM code, banks, serial."""
+    cart = (0, 0, 2)
+    if mbc is None: mbc = rng.choice([None, None, 1, 0x13])
+    if mbc == 1: cart = (rng.choice([1, 3]), 2, 3)
+    if mbc == 0x13: cart = (rng.choice([0x11, 0x13]), 3, 3)
+    banks = {0: 2, 2: 8, 3: 16}[cart[1]]
+    chunks = []
+    counter = [0xC100, 0xC101, 0xC102, 0xFF90, 0xFF91]
+    # interrupt handlers
+    for b in range(5):
+        h = Asm(0x40 + 8 * b)
+        style = rng.randrange(4)
+        if style == 0:
+            h.emit(0xD9)                                             # RETI
+        elif style == 1:
+            h.emit(0xF5, 0xFA); h.word(counter[b]); h.emit(0x3C, 0xEA); h.word(counter[b]); h.emit(0xF1, 0xD9)
+            # PUSH AF; LD A,(nn); INC A; LD (nn),A; POP AF; RETI  -- 11 bytes: spills into the next vector for b<4
+            if b < 4: h.b = h.b[:0]; h.emit(0xD9)
+        elif style == 2:
+            h.emit(0xFB, 0xC9)                                       # EI; RET
+        else:
+            h.emit(0x04, 0xD9)                                       # INC B; RETI
+        chunks.append((h.org, h.resolve()))
+    a = Asm(0x150)
+    sp = rng.choice([0xDFF0, 0xFFFE, 0xCFFF, 0xD002])
+    a.emit(0xF3, 0x31); a.word(sp)
+    def ldh(reg, val): a.emit(0x3E, val, 0xE0, reg)
+    tac = rng.choice([0, 4, 5, 6, 7, 5, 5])
+    ldh(0x06, rng.choice([0, 0xF0, 0xFE, 0x80])); ldh(0x05, rng.choice([0, 0xF8, 0xFF])); ldh(0x07, tac)
+    ldh(0x41, rng.choice([0, 0x08, 0x20, 0x40, 0x78])); ldh(0x45, rng.choice([0, 1, 144, 153, 10]))
+    ldh(0x0F, 0); ldh(0xFF, rng.choice([0x01, 0x05, 0x07, 0x1F, 0x04]) | 1)
+    if rng.randrange(4): a.emit(0xFB)
+    subs = []          # (label, body bytes)
+    nsnip = rng.randint(4, 14)
+    for si in range(nsnip):
+        k = rng.randrange(13)
+        if k == 0:
+            for _ in range(rng.randint(1, 8)): a.emit(*alu_op(rng))
+        elif k == 1:                                                  # counted loop
+            a.emit(0x06, rng.randint(1, 6)); lab = "L%d" % si; a.label(lab)
+            for _ in range(rng.randint(1, 4)): a.emit(*[x for x in alu_op(rng) if True] if False else alu_safe_b(rng))
+            a.emit(0x05); a.jr(0x20, lab)
+        elif k == 2:                                                  # call a subroutine
+            lab = "S%d" % si; a.jp(rng.choice([0xCD, 0xCD, 0xC4, 0xCC, 0xD4, 0xDC]), lab)
+            body = []
+            for _ in range(rng.randint(0, 5)): body += alu_op(rng)
+            subs.append((lab, body + [rng.choice([0xC9, 0xC9, 0xC0, 0xC8]), 0xC9]))
+        elif k == 3:                                                  # memory traffic through HL and the stack
+            a.emit(0x21); a.word(rng.choice([0xC000, 0xC800, 0xD000, 0xDFF8, 0xFF80, 0xFFA0, 0x8000, 0x9FF0, 0xFE00, 0xFE90, 0xA000, 0xBFF0, 0xE000]))
+            for _ in range(rng.randint(1, 6)):
+                a.emit(rng.choice([0x77, 0x22, 0x32, 0x7E, 0x2A, 0x3A, 0x34, 0x35, 0x36, 0x86, 0xAE, 0xBE, 0x46, 0x70]))
+                if a.b[-1] == 0x36: a.emit(rng.randrange(256))
+                if rng.randrange(3) == 0: a.emit(0xCB, rng.choice([0x06, 0x16, 0x26, 0x36, 0x46, 0x7E, 0x86, 0xC6, 0xFE, 0x3E]))
+        elif k == 4:
+            a.emit(rng.choice([0xC5, 0xD5, 0xE5, 0xF5])); 
+            for _ in range(rng.randint(0, 3)): a.emit(*alu_op(rng))
+            a.emit(rng.choice([0xC1, 0xD1, 0xE1, 0xF1]))
+        elif k == 5:                                                  # wait for an interrupt
+            a.emit(0x76, 0x00)
+        elif k == 6:                                                  # OAM DMA through a routine in high RAM
+            rt = [0x3E, rng.choice([0xC0, 0xC1, 0x80, 0xD0, 0x00, 0x40, 0xFE, 0xA0]), 0xE0, 0x46, 0x3E, rng.choice([40, 10, 3]), 0x3D, 0x20, 0xFD, 0xC9]
+            a.emit(0x21); a.word(0xFF80)
+            for x in rt: a.emit(0x36, x, 0x23)
+            a.emit(0xCD); a.word(0xFF80)
+        elif k == 7:                                                  # code executed from work RAM
+            body = []
+            for _ in range(rng.randint(1, 4)): body += alu_op(rng, keep_hl=True)
+            body += [0xC9]
+            dst = rng.choice([0xC200, 0xD300, 0xCFD0])
+            a.emit(0x21); a.word(dst)
+            for x in body: a.emit(0x36, x, 0x23)
+            a.emit(0xCD); a.word(dst)
+        elif k == 8 and mbc:                                          # bank switch and call into the bank
+            bank = rng.randrange(1, banks)
+            a.emit(0x3E, bank, 0xEA); a.word(rng.choice([0x2000, 0x2100, 0x3FFF]))
+            a.emit(0xCD); a.word(0x4000 + 16 * rng.randrange(4))
+        elif k == 9:                                                  # serial output
+            a.emit(0x3E, rng.randrange(256), 0xE0, 0x01, 0x3E, rng.choice([0x81, 0x80, 0x01, 0xFF, 0x00]), 0xE0, 0x02)
+        elif k == 10:                                                 # read device registers into memory
+            for reg in rng.sample([0x04, 0x05, 0x0F, 0x44, 0x41, 0x00, 0xFF, 0x07], 3):
+                a.emit(0xF0, reg, 0xEA); a.word(0xC110 + reg % 16)
+        elif k == 11:                                                 # conditional forward branch
+            lab = "F%d" % si
+            if rng.randrange(2): a.jr(rng.choice([0x20, 0x28, 0x30, 0x38, 0x18]), lab)
+            else: a.jp(rng.choice([0xC2, 0xCA, 0xD2, 0xDA, 0xC3]), lab)
+            for _ in range(rng.randint(1, 3)): a.emit(*alu_op(rng))
+            a.label(lab)
+        else:
+            a.emit(rng.choice([0xFB, 0xF3, 0xFB]))
+    a.label("END")
+    endstyle = rng.randrange(3)
+    if endstyle == 0: a.emit(0x76, 0x00); a.jr(0x18, "END")
+    elif endstyle == 1: a.jr(0x18, "END")
+    else: a.emit(0x04); a.jp(0xC3, "END")
+    for lab, body in subs:
+        a.label(lab); a.emit(*body)
+    chunks.append((0x100, [0x00, 0xC3, 0x50, 0x01]))
+    chunks.append((a.org, a.resolve()))
+    if mbc:
+        for bank in range(1, banks):
+            for slot in range(4):
+                body = [0x3E, bank, 0x06, slot]
+                for _ in range(rng.randint(0, 3)): body += alu_op(rng)
+                body = (body + [0xC9])[:15] + [0xC9]
+                chunks.append((bank * 0x4000 + 16 * slot, body))
+    if steps is None: steps = rng.choice([150, 400, 1200])
+    return scenario(sid, chunks, cpu(a=1, f=0xB0, c=0x13, e=0xD8, h=1, l=0x4D, sp=0xFFFE, pc=0x100), steps, cart=cart)
+
+def alu_safe_b(rng):
+    """ALU op that leaves the loop counter B alone."""
+    while True:
+        op = alu_op(rng)
+        o = op[0]
+        if o in (0x03, 0x0B, 0x04, 0x05, 0x06): continue
+        if 0x40 <= o <= 0x47: continue
+        if o == 0xCB and (op[1] % 8) == 0 and (op[1] // 64) != 1: continue
+        return op
+
+def structured_programs(n, rng, start_id=2000000, mbc=None, steps=None):
+    return [structured_program(start_id + i, rng, mbc=mbc, steps=steps) for i in range(n)]
